@@ -74,6 +74,11 @@ def to_model_call(call):
         halo = None if en["halo"] is None else Fraction(en["halo"])
         u = _fgcd([dx, dy, xm, ym] + ([halo] if halo is not None else []))
         ints = {"ax": dx / u, "ay": dy / u, "xm": xm / u, "ym": ym / u, "halo": (halo / u if halo is not None else Fraction(99999))}
+        if any(v.denominator != 1 or abs(v.numerator) > MAXINT for v in ints.values()):
+            # the measurement point (e.g. a tower position converted from lat/lon) is usually what has no small common
+            # unit with the grid; it does not enter any integer fact of the stages, so it is left out of the unit
+            u = _fgcd([dx, dy] + ([halo] if halo is not None else []))
+            ints = {"ax": dx / u, "ay": dy / u, "xm": Fraction(0), "ym": Fraction(0), "halo": (halo / u if halo is not None else Fraction(99999))}
         for k, v in ints.items():
             if v.denominator != 1 or abs(v.numerator) > MAXINT:
                 return None
